@@ -816,7 +816,12 @@ lk_dyn!(BoxedLockCollection<Vec<Member<'a, 'b>>>, DynKind::Boxed, false);
 lk_dyn!(RefLockCollection<'r, Vec<Member<'a, 'b>>>, DynKind::Ref, false);
 lk_dyn!(RetryingLockCollection<Vec<Member<'a, 'b>>>, DynKind::Retry, true);
 
-impl<'a, 'b> Lk for Poisonable<BoxedLockCollection<Vec<Member<'a, 'b>>>> {
+macro_rules! lk_pois_dyn {
+	($coll:ident, $retry:expr) => {
+		impl<'a, 'b> Lk for Poisonable<$coll<Vec<Member<'a, 'b>>>> {
+			fn is_retry(&self) -> bool {
+				$retry
+			}
 	fn accessors(&self) -> u32 {
 		let p = self.is_poisoned();
 		if !p {
@@ -920,3 +925,7 @@ impl<'a, 'b> Lk for Poisonable<BoxedLockCollection<Vec<Member<'a, 'b>>>> {
 		write!(out, "{:?}", self)
 	}
 }
+	};
+}
+lk_pois_dyn!(BoxedLockCollection, false);
+lk_pois_dyn!(RetryingLockCollection, true);
